@@ -186,8 +186,12 @@ def readback_case(h, fmt, mode, w, hgt, sub=None):
             spec_p2n *= 2
         gx0, gy0 = (spec_p2n - w) // 2 + ix, (spec_p2n - hgt) // 2 + iy
         img = Image.from_array(data.copy())
-        t.tile_image(img, pio)
         bld = Builder(pio)
+        if (w + hgt) % 2:
+            # through the Builder entry point that takes a prepared tiling (the route `toasty tile-study` uses)
+            bld.execute_study_tiling(img, t)
+        else:
+            t.tile_image(img, pio)
         url = bld.imgset.url
         lv = t._tile_levels
         if tiling._tile_levels != lv or t._p2n != tiling._p2n or t._p2n != spec_p2n or 256 * 2 ** lv != spec_p2n:
